@@ -177,8 +177,101 @@ func runValues(c *fw.Ctx) {
 					c.Count("value_roundtrips")
 				}
 			}
-			if i < 3 {
+			if i < 1 && c.Batch == 0 {
 				c.Sample(map[string]interface{}{"case": "value", "type": vt.name, "encoding": hxShort(enc), "bytes": len(enc)})
+			}
+		})
+	}
+
+	// --- list payloads on the header-form boundaries (forced templates) -------
+	// payload of exactly 55/56/57, 255/256/257, 65535/65536/65537 bytes, at the top
+	// level, one and two levels down, and as the last element of a longer list
+	bi := 0
+	for _, P := range []int{54, 55, 56, 57, 58, 255, 256, 257, 65535, 65536, 65537} {
+		for shape := 0; shape < 5; shape++ {
+			bi++
+			if bi%c.NBatch != c.Batch {
+				continue
+			}
+			r := c.Rand("boundary", fmt.Sprint(P), fmt.Sprint(shape))
+			// simple{A: 1, B: n bytes}: payload = 1 + header(n) + n
+			n := P - 2
+			for ; n > 0; n-- {
+				if 1+len(canonHeader(0x80, n))+n == P {
+					break
+				}
+			}
+			inner := simple{A: 1, B: r.Bytes(n)}
+			inner.B[0] |= 0x80
+			var v interface{}
+			var tname string
+			switch shape {
+			case 0:
+				v, tname = &inner, "simple"
+			case 1:
+				v, tname = &[]simple{inner}, "structs"
+			case 2:
+				v, tname = &[][]simple{{inner}, {}}, "structs2"
+			case 3:
+				v, tname = &[]interface{}{[]byte{1}, []interface{}{uint64(1), inner.B}}, "ifslice"
+			default:
+				// a list of P one-byte items
+				l := make([]uint, P)
+				for k := range l {
+					l[k] = uint(1 + r.Intn(127))
+				}
+				v, tname = &l, "uints"
+			}
+			it, terr := refrlp.ToItem(v, refOpts)
+			if terr != nil {
+				harnessFault("ToItem(boundary %s): %v", tname, terr)
+				continue
+			}
+			ref := refrlp.Encode(it)
+			c.Case(fmt.Sprintf("boundary-%d-%d", P, shape), valueInput{Type: tname, Ref: hxShort(ref)}, func() {
+				enc, ok := encodeAll(c, v, tname)
+				if !ok {
+					return
+				}
+				if !bytes.Equal(enc, ref) {
+					c.Violate("encoding_differs_from_reference", "EncodeToBytes", tname, fmt.Sprintf("a list with a %d-byte payload (shape %d): real %s, reference %s", P, shape, hxShort(enc), hxShort(ref)))
+					return
+				}
+				c.Count("encoding_matches_reference")
+				c.Count("value_list_payload_boundary")
+				checkHeaderAPIs(c, enc, it, tname)
+				out := reflect.New(reflect.TypeOf(v).Elem())
+				var err error
+				if p := guarded(func() { err = rlp.DecodeBytes(enc, out.Interface()) }); p != nil {
+					c.Violate("panic", apiDecodeBytes, tname+":"+panicClass(p), fmt.Sprintf("decoding own encoding %s panicked: %v", hxShort(enc), p))
+					return
+				}
+				if err != nil {
+					c.Violate("own_encoding_rejected", apiDecodeBytes, tname+":"+errClass(err), fmt.Sprintf("a list with a %d-byte payload encodes to %s, decoding that fails: %v", P, hxShort(enc), err))
+					return
+				}
+				enc2, err := rlp.EncodeToBytes(out.Interface())
+				if err != nil || !bytes.Equal(enc2, enc) {
+					c.Violate("reencode_differs", apiDecodeBytes, tname, fmt.Sprintf("%s decodes and re-encodes to %s (%v)", hxShort(enc), hxShort(enc2), err))
+					return
+				}
+				c.Count("value_roundtrips")
+			})
+		}
+	}
+	// a log with one topic and no data: the smallest consensus value with a 56-byte payload
+	if c.Batch == 0 {
+		l := &shLog{Topics: [][32]byte{a32(c.Rand("log56").Bytes(32))}, Data: []byte{}}
+		it, _ := refrlp.ToItem(l, nil)
+		ref := refrlp.Encode(it)
+		c.Case("boundary-log56", valueInput{Type: "log", Ref: hx(ref)}, func() {
+			enc, ok := encodeAll(c, realLog(l), "log")
+			if ok && !bytes.Equal(enc, ref) {
+				c.Violate("encoding_differs_from_reference", "EncodeToBytes", "log", fmt.Sprintf("log with one topic and no data: real %s, reference %s", hx(enc), hx(ref)))
+			} else if ok {
+				c.Count("value_list_payload_boundary")
+				j := &judge{c: c}
+				j.typed(apiDecodeBytes, enc, targetByName("log"))
 			}
 		})
 	}
@@ -242,7 +335,7 @@ func runValues(c *fw.Ctx) {
 			// the type-directed reference must agree that this is a valid encoding
 			j := &judge{c: c}
 			j.typed(apiDecodeBytes, enc, tg)
-			if i < len(consensusKinds) && c.WantSample() {
+			if i == 1 && c.Batch == 0 {
 				c.Sample(map[string]interface{}{"case": "consensus", "type": kind, "bytes": len(enc), "encoding_prefix": hxShort(enc[:min(len(enc), 48)])})
 			}
 		})
@@ -292,12 +385,20 @@ func runValues(c *fw.Ctx) {
 						break
 					}
 					if err != nil {
-						c.Violate("own_encoding_rejected", api, names[x]+":"+errClass(err), fmt.Sprintf("value %d (%s) of the concatenation %s: %v", x, names[x], hxShort(all), err))
+						prev := "start"
+						if x > 0 {
+							prev = names[x-1]
+						}
+						c.Violate("own_encoding_rejected", api, "after_"+prev+":"+names[x]+":"+errClass(err), fmt.Sprintf("value %d (%s, preceded by %s) of the concatenation %s: %v", x, names[x], prev, hxShort(all), err))
 						ok = false
 						break
 					}
 					if !equalValues(want.Elem(), out.Elem()) {
-						c.Violate("roundtrip_value_differs", api, names[x], fmt.Sprintf("value %d (%s) of the concatenation decoded to %+v, want %+v", x, names[x], out.Elem().Interface(), want.Elem().Interface()))
+						prev := "start"
+						if x > 0 {
+							prev = names[x-1]
+						}
+						c.Violate("roundtrip_value_differs", api, "after_"+prev+":"+names[x], fmt.Sprintf("value %d (%s) of the concatenation decoded to %+v, want %+v", x, names[x], out.Elem().Interface(), want.Elem().Interface()))
 						ok = false
 						break
 					}
@@ -306,7 +407,7 @@ func runValues(c *fw.Ctx) {
 					var extra interface{}
 					err := s.Decode(&extra)
 					if err != io.EOF {
-						c.Violate("end_of_input_not_reported", api, errClass(err), fmt.Sprintf("after the last value of %s the stream returned %v, not io.EOF", hxShort(all), err))
+						c.Violate("end_of_input_not_reported", api, "after_"+names[len(names)-1]+":"+errClass(err), fmt.Sprintf("after the last value (a %s) of %s the stream returned %v, not io.EOF", names[len(names)-1], hxShort(all), err))
 					} else {
 						c.Count("stream_sequence_roundtrips")
 					}
